@@ -58,6 +58,15 @@ inductive Schema where
   | unsupported (why : String)
 deriving Repr, Inhabited
 
+/-! ### `$ref` strings ↔ class names -/
+
+def refPrefix : String := "#/definitions/"
+/-- `convert_to_field_code`: `schema["$ref"][len("#/definitions/"):]` — the class name a `$ref` is
+    emitted as (a slice by length, whatever characters the name starts with) -/
+def refName (r : String) : String := String.ofList (r.toList.drop refPrefix.toList.length)
+/-- `_map_class_reference`: `f"#/definitions/{name}"` — the `$ref` emitted for a class -/
+def refOf (n : String) : String := refPrefix ++ n
+
 /-! ### schema → declaration (what the generated code evaluates to) -/
 
 /-- `MapMapper.get_paramlist_from_schema` passes `minItems` / `maxItems` -/
